@@ -1,6 +1,9 @@
 """What MANIFEST.json claims.  Edited by hand as checks are completed."""
 TRUST = ("Trusted: rustc (MIR construction, trait resolution, const evaluation) on the pre-installed nightly; bitvec 1.1.1 / std "
-         "semantics as summarised in the model rows of DESIGN.md appendix A; the oracle files under oracle/; little-endian 64-bit target. ")
+         "semantics as summarised in the model rows of DESIGN.md appendix A; the oracle files under oracle/; little-endian 64-bit target. "
+         "Common to all checks: guards are compared as integer facts; every unsigned subtraction on an analysed path must be ordered by that "
+         "path's conditions (I-underflow); changes to the frozen panicking preconditions are reported (I-assert); items that moved between "
+         "modules are mapped back to their frozen names (rules/canon.py). Run in three build configurations (quick) or four (thorough). ")
 SOURCE_COMMITS = []
 FIX_COMMITS = ["ae2da57", "a6bd5b1", "5888761", "4f0e07a", "98a9f66", "88a696c", "e497ea8", "279ff04"]
 NOT_APPLICABLE = {}
